@@ -1383,3 +1383,28 @@ V("C17", "benign_setstate_memo_keyed_by_get", "benign", None, (Z, """           
                             new_watchers.append(again)
                             continue
 """))
+
+# ListProxy model
+V("C18", "pop_by_key_removes_last_object", "fire", "R18.j", (P, """            object = self._parameter.names.pop(*args)
+            super().remove(object)
+            self._parameter._objects.remove(object)""", """            object = self._parameter.names.pop(*args)
+            super().pop()
+            self._parameter._objects.pop()"""))
+V("C18", "rekey_existing_name_appends", "fire", "R18.j", (P, """                old = self._parameter.names[index]
+                idx = self.index(old)
+                super().__setitem__(idx, object)
+                self._parameter._objects[idx] = object""", """                old = self._parameter.names[index]
+                super().remove(old)
+                self._parameter._objects.remove(old)
+                super().append(object)
+                self._parameter._objects.append(object)"""))
+V("C18", "benign_pop_index_positional_rebuild", "benign", None, (P, """                if self._parameter.names:
+                    self._parameter.names = {
+                        k: v for k, v in self._parameter.names.items()
+                        if v is not object
+                    }
+            return object""", """                if self._parameter.names:
+                    items = list(self._parameter.names.items())
+                    i = index if index >= 0 else len(items) + index
+                    self._parameter.names = dict(items[:i] + items[i + 1:])
+            return object"""))
